@@ -403,6 +403,24 @@ def simulate_small_bodies(seed, nstreams, maxrate, threshold, body_len, n_bodies
     return {'deliveries': sorted(deliveries, key=lambda d: d[2]), 'fail': fail}
 
 
+def _calm_violation(sim, maxrate):
+    """traffic whose demand stays below the limit is never delayed: as long as every attempt so far asked
+    for at most max*(time since the previous grant), no attempt may be refused"""
+    t_prev, calm = None, True
+    for t, k, a, tok, rt, _n in sorted([(t, 'r', a, tok, rt, n_) for t, a, tok, rt, n_ in sim['refusals']] +
+                                       [(t, 'g', a, tok, None, n_) for t, a, tok, n_ in sim['grants']],
+                                       key=lambda e: e[5]):
+        if t_prev is not None and not (a <= maxrate * (t - t_prev) * (1 - 1e-9)):
+            calm = False
+        if not calm:
+            return None
+        if k == 'r':
+            return ({'at': t, 'amount': a, 'since_previous_grant': None if t_prev is None else t - t_prev},
+                    'every read so far asked for no more than max_bandwidth x (time since the previous grant), yet a read was throttled')
+        t_prev = t
+    return None
+
+
 SMOOTHING = 1.25
 
 
@@ -550,21 +568,9 @@ def oracle(seed, tier):
         burst = (2 * nstreams + 4) * max([amount] + list(amounts.values()))
         for sig, w, what in window_violations(sim, maxrate, burst):
             res.violation(sig, dict(wit, **w), what)
-        # traffic whose demand stays below the limit is never delayed: as long as every attempt so far
-        # asked for at most max*(time since the previous grant), no attempt may be refused
-        t_prev, calm = None, True
-        for t, k, a, tok, rt, _n in sorted([(t, 'r', a, tok, rt, n_) for t, a, tok, rt, n_ in sim['refusals']] +
-                                           [(t, 'g', a, tok, None, n_) for t, a, tok, n_ in sim['grants']],
-                                           key=lambda e: e[5]):
-            if t_prev is not None and not (a <= maxrate * (t - t_prev) * (1 - 1e-9)):
-                calm = False
-            if not calm:
-                break
-            if k == 'r':
-                res.violation('delayed-below-limit', dict(wit, at=t, amount=a, since_previous_grant=None if t_prev is None else t - t_prev),
-                              'every read so far asked for no more than max_bandwidth x (time since the previous grant), yet a read was throttled')
-                break
-            t_prev = t
+        cv = _calm_violation(sim, maxrate)
+        if cv:
+            res.violation('delayed-below-limit', dict(wit, **cv[0]), cv[1])
         # each wait is no longer than the queue of currently waiting live streams plus its own
         dead = set()
         live_waiting = {}
@@ -635,6 +641,25 @@ def oracle(seed, tier):
                           '%d bytes of small objects delivered in %.4fs, bound 1.25*max*T+burst = %.0f'
                           % (bad[2], bad[1], 1.25 * maxrate * bad[1] + burst))
         res.nontrivial.add(('small', it))
+    # a thread descheduled at each of its first lock acquisitions while the streams take turns below the limit
+    for pre in range(0, 150 if tier == 'quick' else 600):
+        nstreams = 2 + pre % 2
+        maxrate, amount = 100000, 10000
+        base = amount / maxrate
+        sim = simulate(rng.randrange(1 << 30), nstreams, maxrate, amount,
+                       (lambda i, k, n=nstreams: (i * 1.5 * base) if k == 0 else n * 1.5 * base), 8, (lambda i, k: 0.0), {},
+                       preempt=pre % 30)
+        res.evaluations += 1
+        if sim['fail'] is not None:
+            res.violation('limiter-hangs', {'traffic': 'staggered', 'preempt': pre}, repr(sim['fail']))
+            continue
+        cv = _calm_violation(sim, maxrate)
+        if cv:
+            res.violation('delayed-below-limit', dict({'streams': nstreams, 'max_bandwidth': maxrate, 'read_amount': amount,
+                                                       'traffic': 'streams take turns, one read every 1.5 x amount/max',
+                                                       'a_thread_descheduled_at_its_lock_acquisition': pre % 30}, **cv[0]), cv[1])
+        if res.enough():
+            break
     # D17: the statement's single bound for mixed traffic, on a fixed witness
     for sig, w, what in _d17_probe():
         res.violation(sig, w, what)
